@@ -1,13 +1,17 @@
 #!/bin/bash
-# usage: seed_run.sh <seed dir name> <check id> [more check ids]  -- applies seeded/<name>/patch.diff to /repo, runs the checks, reverts
+# usage: seed_run.sh <seed dir name> <check id> [more check ids]
+# applies seeded/<name>/patch.diff to a scratch worktree of /repo (never to /repo itself), runs the checks against it (VERIF_REPO) with
+# their own build directories and evidence directory, and removes the worktree again
 N=$1; shift
-cd /repo && git status --short | grep -q . && { echo "/repo not clean"; exit 2; }
-git -C /repo apply /verif/seeded/$N/patch.diff || exit 2
-# evidence of runs on a seeded tree must not replace the committed evidence of the unchanged tree
+WT=/tmp/seedrepo-$N
+git -C /repo worktree remove --force $WT 2>/dev/null
+git -C /repo worktree add -q --detach $WT HEAD || exit 2
+git -C $WT apply /verif/seeded/$N/patch.diff || { git -C /repo worktree remove --force $WT; exit 2; }
+export VERIF_REPO=$WT
 export VERIF_EVIDENCE_DIR=/verif/build/evidence-seeds; mkdir -p $VERIF_EVIDENCE_DIR
 for C in "$@"; do
   echo "== $N vs $C"
-  (cd /verif && timeout 1500 ./check $C ${SEED_ARGS:-} 2>&1 | grep -E "VIOLATION|INCONCLUSIVE|KNOWN|^C[0-9]+:" | head -6; echo "exit=${PIPESTATUS[0]}")
+  (cd /verif && timeout ${SEED_TIMEOUT:-2400} ./check $C ${SEED_ARGS:-} 2>&1 | grep -E "VIOLATION|INCONCLUSIVE|KNOWN|^C[0-9]+:" | head -6; echo "exit=${PIPESTATUS[0]}")
 done
-git -C /repo checkout -- .
-git -C /repo status --short
+git -C /repo worktree remove --force $WT
+git -C /repo worktree prune
